@@ -708,7 +708,8 @@ def model_input(case, parts):
         tsigs = [(int(ts.start.t), int(ts.beats), int(ts.beat_type)) for ts in part.iter_all(S.TimeSignature)]
         ksigs = [(int(ks.start.t), key_code(ks.name)) for ks in part.iter_all(S.KeySignature)]
         tempi = [(int(tp.start.t), int(tp.microseconds_per_quarter)) for tp in part.iter_all(S.Tempo)]
-        out.append((gids[pi], pi, qd, m1t, (int(tsm[0]), int(tsm[1])), notes, tsigs, ksigs, tempi, pieces))
+        meas = [(int(m.start.t), int(m.end.t)) for m in part.iter_all(S.Measure)]
+        out.append((gids[pi], pi, qd, m1t, (int(tsm[0]), int(tsm[1])), notes, tsigs, ksigs, tempi, pieces, meas))
     return out
 
 
@@ -770,6 +771,110 @@ WHAT = {"export": "model ppq / ticks / track+channel numbering / delta times = m
         "import_signatures": "model track -> part mapping of time / key signatures (tracks without notes global, sanitize rule, default 4/4) = "
                              "signatures of every part of load_score_midi"}
 IMPORTS = "From PV Require Import Model.C04 Model.C04_stream."
+
+
+# ----------------------------------------------------------------------------
+# round j: the time_sig_change stream (Model/C04_tsc.v)
+
+TSC_IMPORTS = "From PV Require Import Model.C04 Model.C04_stream Model.C04_tsc."
+TSC_CHECK = "fun c => match c with (mode, ppq, ps, meas, trs) => check_tsc mode 1 ppq ps meas trs end"
+TSC_WHAT = ("model of the time_sig_change branch (Model/C04_tsc.v: insertion-ordered dict per part, measure loop with ts_changing_time / "
+            "fitted_measure_time, two-entries clean-up, own signatures, key signatures, merge of the parts of a track) = the time / key "
+            "signature messages of every written track, in written order with their ticks")
+
+
+def coq_tsc_case(case, minput, ppq, tracks):
+    parts = clist([coq_part(p) for p in minput])
+    meas = clist([clist([ctuple([cz(a), cz(b)]) for a, b in p[10]]) for p in minput])
+    trs = clist([clist([cmsg(m) for m in tr]) for tr in tracks])
+    return "(%s, %s, %s, %s, %s)" % (cz(case["mode"]), cz(ppq), parts, meas, trs)
+
+
+def tsc_features(case, minput, tracks):
+    """Feature names of one time_sig_change case (measured input distribution of the stream)."""
+    f = set()
+    sounding = [p for p in minput if p[5]]
+    if len(sounding) > len(tracks):
+        f.add("a track shared by two or more parts")
+    if len(sounding) > 1:
+        f.add("two or more sounding parts")
+    for p in sounding:
+        qd, tsigs, ksigs, meas = p[2], p[6], p[7], p[10]
+        fitted = []
+        for i, (s_, e_) in enumerate(meas):
+            cur = [x for x in tsigs if x[0] <= s_]
+            cur = cur[-1] if cur else (tsigs[0] if tsigs else (0, 4, 4))
+            if (qraw(qd, e_) - qraw(qd, s_)) * cur[2] / 4 != cur[1]:
+                fitted.append(i)
+        if fitted:
+            f.add("a fitted measure")
+        if 0 in fitted:
+            f.add("fitted first measure (pickup)")
+        if any(i > 0 for i in fitted):
+            f.add("fitted inner measure")
+        if any(i + 1 in fitted for i in fitted):
+            f.add("two fitted measures in a row")
+        if any(meas[i][1] in [x[0] for x in tsigs] for i in fitted):
+            f.add("time signature object right after a fitted measure (no restore)")
+        if any(meas[i][0] in [x[0] for x in tsigs[1:]] for i in fitted):
+            f.add("time signature object at the start of a fitted inner measure (skipped)")
+        if any(meas[i][0] in [x[0] for x in ksigs] for i in fitted):
+            f.add("key signature at the start of a fitted measure")
+        if any(meas[i][1] in [x[0] for x in ksigs] for i in fitted):
+            f.add("key signature at the end of a fitted measure")
+        if len(tsigs) > 1:
+            f.add("time signature change inside the part")
+        if len(ksigs) > 1:
+            f.add("two or more key signatures")
+    if not f:
+        f.add("no fitted measure, one part per track")
+    return sorted(f)
+
+
+def stage_tsc(ctx, direct, others, workdir):
+    """direct: (case, minput, ppq, tracks) of the generated time_sig_change cases that passed the oracle;
+    others: generated cases with another anacrusis behaviour -- exported once more under time_sig_change
+    (same score, same mode; no random numbers are drawn, so the other streams are unchanged)."""
+    import warnings
+    warnings.filterwarnings("ignore")
+    items = list(direct)
+    limit = {"quick": 110, "thorough": 1500}.get(ctx.tier, 110)
+    for case in others[:limit]:
+        c = json.loads(json.dumps(case))
+        c["anacrusis"], c["out"] = "time_sig_change", "none"
+        c.pop("to_file", None)
+        try:
+            parts, top = build(c)
+            mf, _, err = do_export(make_data(c, parts, top), c, workdir, tag="_tsc")
+            if err:
+                ctx.violation("C04 fails: export: %s" % err, {"case": c, "kinds": ["export"], "failures": [["export", err]]})
+                continue
+            items.append((c, model_input(c, parts), int(mf.ticks_per_beat), read_messages(mf)))
+            ctx.evaluations += 1
+            ctx.count("tsc stream: score of another case exported again under time_sig_change")
+        except Exception as e:  # noqa
+            ctx.violation("harness raised %s in the time_sig_change stream" % e, {"case": c, "kinds": ["harness"]})
+    terms = []
+    for case, minput, ppq, tracks in items:
+        terms.append(coq_tsc_case(case, minput, ppq, tracks))
+        ctx.count("tsc stream: cases")
+        ctx.count("tsc stream: mode %d" % case["mode"])
+        for f in tsc_features(case, minput, tracks):
+            ctx.count("tsc stream: " + f)
+    what = "%s, on %d cases" % (TSC_WHAT, len(terms))
+    if not terms:
+        ctx.obligation("correspondence: " + what, True, "no case")
+        return
+    try:
+        failing = ctx.coq_failing("tsc", TSC_IMPORTS, "", terms, TSC_CHECK, shard=SHARD)
+    except RuntimeError as e:
+        ctx.obligation("correspondence: " + what, False, str(e)[-1500:])
+        ctx.violation("Coq rejected the time_sig_change terms: %s" % str(e)[-600:], {"kinds": ["harness"]}, no_input=True)
+        return
+    ctx.obligation("correspondence: " + what, not failing, failing[:5])
+    for i in failing[:3]:
+        ctx.violation("model and implementation disagree (tsc: time / key signature messages of a track under time_sig_change)",
+                      {"case": items[i][0], "kinds": ["correspondence:tsc"]})
 
 
 # ----------------------------------------------------------------------------
@@ -1720,11 +1825,12 @@ def run(ctx):
     ctx.assumptions = ["every part starts at time 0 with a time signature and a measure; at least one part has a note",
                        "pickup and irregular measures last a whole number of beats (upstream TODO for time_sig_change)",
                        "parts of one score share the measure grid and time signatures; under time_sig_change the time signatures are "
-                       "judged by the oracle (signature in force at each measure start, per part in the tracks holding its notes), not by the Coq model",
+                       "judged by the oracle (signature in force at each measure start, per part in the tracks holding its notes) and, since round j, by the "
+                       "Coq model of that branch (Model/C04_tsc.v, stream tsc: the signature messages of every written track)",
                        "a grace note never has the pitch of a note sounding across its onset in the same track and channel (it may sit on either end of one)",
                        "MIDI channel numbers stay below 16 (at most 3 voices / parts per track)"]
     register_known(ctx)
-    ok, why = ctx.coq_props(expect_min=41)
+    ok, why = ctx.coq_props(expect_min=50)
     ctx.log("proofs checked: %s" % ("ok" if ok else why[:200]))
     n = {"quick": 260, "thorough": 4500}.get(ctx.tier, 260)
     cases = corpus_cases()
@@ -1740,6 +1846,7 @@ def run(ctx):
                     c["mode"], c["anacrusis"] = mode, an
                     cases.append(c)
     terms, kept = [], []
+    tsc_direct, tsc_others = [], []
     found = 0
     # private work directory: the default .work/C04 is wiped whenever another run of C04 starts or
     # ends, which would remove the MIDI files / cases_*.v of this run (finish() removes ctx.work)
@@ -1822,8 +1929,13 @@ def run(ctx):
         if "error" in obs or "import_error" in obs or "perf_error" in obs:
             continue
         try:
-            terms.append(coq_case(case, model_input(case, parts), obs))
+            minput = model_input(case, parts)
+            terms.append(coq_case(case, minput, obs))
             kept.append(case)
+            if case["anacrusis"] == "time_sig_change":
+                tsc_direct.append((case, minput, obs["ppq"], obs["tracks"]))
+            elif not case.get("no_tsc"):
+                tsc_others.append(case)
         except Exception as e:  # noqa
             ctx.violation("cannot read the model input from the score objects: %s" % e, {"case": case, "kinds": ["harness"]})
         if len(ctx.samples) < 2:
@@ -1866,6 +1978,7 @@ def run(ctx):
                 ctx.violation("model and implementation disagree (%s)" % name, {"case": kept[i], "kinds": ["correspondence:" + name]})
                 reported += 1
     history_correspondence(ctx, hterms, hhist)
+    stage_tsc(ctx, tsc_direct, tsc_others, fdir)
 
 
 def history_correspondence(ctx, hterms, hhist):
